@@ -98,55 +98,62 @@ func ErrLeadsToFailure(call *ssa.Call) bool {
 	if ev == nil {
 		return false
 	}
-	// direct `return f()` / `return x, err`
 	brs := NilBranches(ev)
-	if len(brs) == 0 {
-		return errFlowsToReturn(ev)
-	}
+	tests := map[ssa.Instruction]bool{}
 	for _, br := range brs {
 		if !FailsOnly(br.If.Block().Succs[br.NonNilSucc], map[*ssa.BasicBlock]bool{}) {
 			return false
 		}
+		tests[br.If] = true
 	}
-	return true
-}
-
-// errFlowsToReturn: the error value is returned as the function's error result (possibly
-// through a phi / the spilled named result) without being tested.
-func errFlowsToReturn(ev ssa.Value) bool {
-	for _, a := range ValueAliases(ev) {
-		refs := a.Referrers()
-		if refs == nil {
-			continue
+	aliases := ValueAliases(ev)
+	propagates := func(ret *ssa.Return) bool {
+		ei := ErrIndex(ret.Parent())
+		if ei < 0 {
+			return false
 		}
-		for _, r := range *refs {
-			switch x := r.(type) {
-			case *ssa.Return:
-				return true
-			case *ssa.Phi:
-				for _, r2 := range *x.Referrers() {
-					if _, ok := r2.(*ssa.Return); ok {
-						return true
-					}
-				}
-			case *ssa.Store:
-				// stored to the named error result which the Return loads
-				if al, ok := x.Addr.(*ssa.Alloc); ok {
-					fn := x.Parent()
-					for _, ret := range Returns(fn) {
-						ei := ErrIndex(fn)
-						if ei < 0 {
-							continue
-						}
-						if ld, ok := ret.Results[ei].(*ssa.UnOp); ok && ld.X == al && reaches(x, ld) && !storeBetween(al, x, ld) {
-							return true
-						}
-					}
+		v := ret.Results[ei]
+		if ld, ok := v.(*ssa.UnOp); ok {
+			if al, ok := ld.X.(*ssa.Alloc); ok {
+				if sv := LastStoreBefore(al, ld); sv != nil {
+					v = sv
 				}
 			}
 		}
+		var has func(v ssa.Value, d int) bool
+		has = func(v ssa.Value, d int) bool {
+			for _, a := range aliases {
+				if SameValue(v, a) {
+					return true
+				}
+			}
+			if ph, ok := v.(*ssa.Phi); ok && d < 4 {
+				for _, e := range ph.Edges {
+					if has(e, d+1) {
+						return true
+					}
+				}
+			}
+			return false
+		}
+		return has(v, 0)
 	}
-	return false
+	// No path from the call to an exit that neither fails nor hands the error on may
+	// avoid every nil test of the error.
+	_, _, found := PathQuery{Fn: call.Parent(), Start: call,
+		Barrier: func(in ssa.Instruction) bool { return tests[in] },
+		EdgeOK:  FeasibleEdge,
+		Target: func(in ssa.Instruction) bool {
+			ret, ok := in.(*ssa.Return)
+			if !ok {
+				return false
+			}
+			if ClassifyReturn(ret) == ExitFailure || propagates(ret) {
+				return false
+			}
+			return true
+		}}.Find()
+	return !found
 }
 
 // FailsOnly: every path from b ends in a failure exit or a panic (no success exit).
